@@ -140,7 +140,10 @@ static void do_tofd(json_object *obj, int flags, int via_file)
 		/* the file exists already and is longer than the document: nothing of it may survive */
 		static char junk[6000];
 		memset(junk, 'J', sizeof junk);
-		if (vh_below(2) && write(fd, junk, strlen(want) + 1 + vh_below(2000) < sizeof junk ? strlen(want) + 1 + vh_below(2000) : sizeof junk) < 0)
+		size_t jl = strlen(want) + 1 + vh_below(2000);
+		if (jl > sizeof junk)
+			jl = sizeof junk;
+		if (vh_below(2) && write(fd, junk, jl) < 0)
 			exit(2);
 		close(fd);
 		/* the library opens the file itself: the script applies to whatever fd it gets (next free = fd again) */
